@@ -67,6 +67,36 @@ MUTANTS = [
     ("c14-first-path-only", ["C14", "C01"], [(MT, "            .paths()\n            .iter()", "            .paths()\n            .iter()\n            .take(1)")]),
 ]
 
+MUTANTS += [
+    # --- second batch: one mutant per rule that the first batch did not exercise
+    ("c04-writer-char-truncates-silently", ["C04"], [(R, "        self.push(c as u8).or(Err(Error::TooMuchData))?;", "        let _ = self.push(c as u8);")]),
+    ("c05-bounded-writer-unwrap", ["C05"], [(R, "        self.extend_from_slice(bytes).or(Err(Error::TooMuchData))?;\n        Ok(())\n    }\n\n    async fn write_char", "        self.extend_from_slice(bytes).unwrap();\n        Ok(())\n    }\n\n    async fn write_char")]),
+    ("c05-run-returns-non-suffix", ["C05"], [(I, "        &[][..]\n    }", "        b\"\\n\"\n    }")]),
+    ("c06-extra-state-across-messages", ["C06"], [(I, "        let mut header = self.root_node();\n", "        let mut header = self.root_node();\n        let mut failed = false;\n"),
+                                           (I, "                    self.handle_error(error);\n                }", "                    if !failed {\n                        self.handle_error(error);\n                    }\n                    failed = true;\n                }")]),
+    ("c06-execute-remaps-error", ["C06"], [(I, "            self.execute_command(command, &call.args, response).await?;", "            self.execute_command(command, &call.args, response).await.map_err(|_| Error::ExecutionError)?;")]),
+    ("c08-close-quote-differs", ["C08"], [(P, "    let (i2, res) = take_while(|c| c != b'\"')(i1)?;\n    let (i3, _) = tag(b'\"')(i2)?;", "    let (i2, res) = take_while(|c| c != b'\"')(i1)?;\n    let (i3, _) = satisfy(|c| c == b'\"' || c == b'\\'')(i2)?;")]),
+    ("c08-string-value-trimmed", ["C08"], [(P, "    let res = str::from_utf8(res)?;\n    Ok((i3, Value::String(res)))\n}\n\n/// Parses a double", "    let res = str::from_utf8(res)?.trim_end();\n    Ok((i3, Value::String(res)))\n}\n\n/// Parses a double")]),
+    ("c08-block-scanned-for-newline", ["C08"], [(P, "        let value = &i3[..count];\n        let remaining = &i3[count..];", "        let (remaining, value) = take_while(|c| c != b'\\n')(i3)?;")]),
+    ("c09-empty-queue-answer", ["C09"], [(C, "            Ok((0, \"\"))", "            Ok((0, \"No error\"))")]),
+    ("c09-count-off-by-one", ["C09"], [(C, "        Ok(self.error_queue().error_count())", "        Ok(self.error_queue().error_count().saturating_sub(1))")]),
+    ("c09-next-does-not-remove", ["C09"], [(Q, "        self.0.pop_front()", "        self.0.front().copied()")]),
+    ("c10-error-mapped", ["C10"], [(I, "adapter.write(&res_buf).await?;", "adapter.write(&res_buf).await.or_else(|_| Ok(()))?;")]),
+    ("c11-mnemonic-underscore-dropped", ["C11"], [(P, "take_while(|c| c.is_ascii_alphanumeric() || c == b'_')(i1)?", "take_while(|c| c.is_ascii_alphanumeric())(i1)?")]),
+    ("c11-ws-after-comma-dropped", ["C11"], [(P, "    let (input, _) = tag(b',')(input).map_err(|_| Error::InvalidSeparator)?;\n    let (input, _) = optional(whitespace)(input)?;", "    let (input, _) = tag(b',')(input).map_err(|_| Error::InvalidSeparator)?;")]),
+    ("c12-eoi-as-soft-error", ["C12"], [(P, "        None => Err(ParseError::Incomplete),\n    }\n}", "        None => Err(Error::InvalidCharacter)?,\n    }\n}")]),
+    ("c12-string-close-optional", ["C12", "C08"], [(P, "    let (i2, res) = take_while(|c| c != b'\\'')(i1)?;\n    let (i3, _) = tag(b'\\'')(i2)?;", "    let (i2, res) = take_while(|c| c != b'\\'')(i1)?;\n    let (i3, _) = optional(tag(b'\\''))(i2)?;")]),
+    ("c13-std-vec-in-shared-impl", ["C13"], [(L, "#[cfg(feature = \"std\")]\nextern crate std as core;", "extern crate std as core;")]),
+    ("c14-children-keyed-by-prefix", ["C14", "C01"], [(MT, "                .entry(part.clone());", "                .entry(part.chars().take(4).collect());")]),
+    ("c14-recursion-error-dropped", ["C14"], [(MT, "            self.insert_at(node_id, &path[1..], cmd)?;", "            let _ = self.insert_at(node_id, &path[1..], cmd);")]),
+    ("c02-future-not-awaited-in-place", ["C02", "C07"], [(I, "                let remaining = self.run(data, &mut res_buf).await;", "                let fut = self.run(data, &mut res_buf);\n                let remaining = fut.await;")]),
+    ("c03-bool-on-maps-to-false", ["C03"], [(V, "            Value::Characters(\"ON\" | \"on\")\n            | Value::Characters(\"TRUE\" | \"true\")\n            | Value::Decimal(\"1\") => Ok(true),\n            Value::Characters(\"OFF\" | \"off\")", "            Value::Characters(\"TRUE\" | \"true\")\n            | Value::Decimal(\"1\") => Ok(true),\n            Value::Characters(\"ON\" | \"on\")\n            | Value::Characters(\"OFF\" | \"off\")")]),
+    ("c03-str-accepts-characters", ["C03"], [(V, "            Value::String(data) => Ok(data),", "            Value::String(data) | Value::Characters(data) => Ok(data),")]),
+    ("c04-tuple-order-swapped", ["C04"], [(R, "        self.0.write_response(f).await?;\n        f.write_char(',').await?;\n        self.1.write_response(f).await\n    }", "        self.1.write_response(f).await?;\n        f.write_char(',').await?;\n        self.0.write_response(f).await\n    }")]),
+    ("c04-list-comma-after-each", ["C04"], [(R, "        for (i, item) in self.iter().enumerate() {\n            if i > 0 {\n                f.write_char(',').await?;\n            }\n            item.write_response(f).await?;\n        }\n        Ok(())\n    }\n}\n\nimpl<T> Response for &[T]", "        for item in self.iter() {\n            item.write_response(f).await?;\n            f.write_char(',').await?;\n        }\n        Ok(())\n    }\n}\n\nimpl<T> Response for &[T]")]),
+    ("c04-block-header-digits", ["C04"], [(R, "            let len_digits = len.ilog10() + 1;", "            let len_digits = len.ilog10();")]),
+]
+
 ALL = ["C%02d" % i for i in range(1, 15)]
 
 BENIGN = [
